@@ -46,9 +46,14 @@ def check(run):
                 flat[i] /= np.linalg.norm(flat[i])
         return arr
 
-    for shape in (RSHAPES if not quick else RSHAPES[:6]):
+    cases = [(sh, "C") for sh in (RSHAPES if not quick else RSHAPES[:6])] + [((2, 3), "F"), ((3, 2), "F-view")] + ([] if quick else [((2, 2, 3), "F")])
+    for shape, layout in cases:
         for use_ws in (False, True):
             Rarr = rotors(shape)
+            if layout == "F":
+                Rarr = np.asfortranarray(Rarr)            # e.g. a grid of rotors built from component arrays, np.array([w, x, y, z]).T
+            elif layout == "F-view":
+                Rarr = np.array([Rarr[..., k].T.copy() for k in range(4)]).T
             Rq = quaternionic.array(Rarr)
             Rcopy = Rarr.copy()
             flat = Rarr.reshape(-1, 4)
@@ -64,13 +69,13 @@ def check(run):
                         o = np.full(per.size, np.nan + 0j)
                     else:
                         o = np.full(per.shape, np.nan + 0j)
-                    inp = {"method": name, "R_shape": list(shape), "out": out_kind, "workspace": use_ws}
+                    inp = {"method": name, "R_shape": list(shape), "R_layout": layout, "out": out_kind, "workspace": use_ws}
                     try:
                         r = call(o, ws)
                     except Exception as e:
                         run.violation("vectorised-call-raised", f"Wigner.{name}", inp, "values", repr(e))
                         continue
-                    run.gap_case("vectorised-D-sYlm", (name, shape, out_kind, use_ws), f"{name}|rank{len(shape)}|out={out_kind}", inp)
+                    run.gap_case("vectorised-D-sYlm", (name, shape, layout, out_kind, use_ws), f"{name}|rank{len(shape)}|{layout}|out={out_kind}", inp)
                     if r.shape != shape + (size,):
                         run.violation("vectorised-shape", f"Wigner.{name}", inp, list(shape + (size,)), list(r.shape))
                         continue
@@ -92,13 +97,13 @@ def check(run):
                     for out_kind in ("none", "documented-shape"):
                         ws = w.new_workspace() if use_ws else None
                         o = None if out_kind == "none" else np.full(lead + shape, 7.0 + 3.0j)
-                        inp = {"method": "evaluate", "horner": horner, "R_shape": list(shape), "lead": list(lead), "out": out_kind, "workspace": use_ws, "s": s}
+                        inp = {"method": "evaluate", "horner": horner, "R_shape": list(shape), "R_layout": layout, "lead": list(lead), "out": out_kind, "workspace": use_ws, "s": s}
                         try:
                             r = w.evaluate(modes, Rq, out=o, workspace=ws, horner=horner)
                         except Exception as e:
                             run.violation("vectorised-call-raised", f"Wigner.evaluate[horner={horner}]", inp, "values", repr(e))
                             continue
-                        run.gap_case("vectorised-evaluate", (shape, lead, horner, out_kind, use_ws), f"evaluate|horner={horner}|out={out_kind}", inp)
+                        run.gap_case("vectorised-evaluate", (shape, layout, lead, horner, out_kind, use_ws), f"evaluate|horner={horner}|{layout}|out={out_kind}", inp)
                         r = np.asarray(r)
                         if r.shape != lead + shape:
                             run.violation("vectorised-shape", f"Wigner.evaluate[horner={horner}]", inp, list(lead + shape), list(r.shape))
